@@ -1,6 +1,9 @@
-"""C14 target plug-in: Atmel AVR (codeavr.c), code segment in 16-bit words (default CODESEGSIZE=1).
+"""C14 target plug-in: Atmel AVR (codeavr.c), code segment in 16-bit words (default CODESEGSIZE=1) and in bytes
+(`cpu <device>:codesegsize=0`).
 
-CPU index = index into the SPEC's device list (Spec/Isa/IAvr.lean `devices`), +8 = the same device with `WRAPMODE ON`.
+CPU index = index into the SPEC's device list (Spec/Isa/IAvr.lean `devices`), +8 = the same device with `WRAPMODE ON`,
++16 = the same device with byte-addressed code space: program counter and code-address operands of such a case are BYTE addresses
+(the driver halves them for the SPEC, which knows word addresses only).
 Operand values handed to the driver (see the SPEC): register Rn -> n; pointer operand of LD/ST/LPM/ELPM
 X, X+, -X, Y, Y+, -Y, Z, Z+, -Z -> 0..8 (anything else: a text that is no pointer); LDD/STD: base Z -> 0, Y -> 1
 (2 = `X`, not a base) followed by the displacement; code addresses in words.
@@ -11,6 +14,7 @@ GENERATED = ["Isa_Avr"]
 
 SIG_SIZE = "avr-size-gated-instruction-accepted-on-small-device"
 SIG_PBIT = "avr-pbit-address-truncated-modulo-512"
+SIG_WRAPB = "avr-wrapmode-without-effect-in-byte-addressed-code-space"
 
 DEVICES = [("AT90S1200", 9), ("AT90S8515", 12), ("ATTINY13", 9), ("ATTINY167", 13), ("ATMEGA8", 12), ("ATMEGA128", 16), ("ATMEGA2560", 17)]
 CORE = [0, 1, 2, 2, 3, 3, 3]       # only used to choose where the *dense* enumeration of a mnemonic runs
@@ -58,16 +62,18 @@ def disp(rng, p, q):
 
 class T:
     name = "avr"
-    cpus = [(n, i) for i, (n, _b) in enumerate(DEVICES)] + [(n + "+wrap", i + 8) for i, (n, _b) in enumerate(DEVICES)]
+    cpus = ([(n, i) for i, (n, _b) in enumerate(DEVICES)] + [(n + "+wrap", i + 8) for i, (n, _b) in enumerate(DEVICES)] +
+            [(n + ":codesegsize=0", i + 16) for i, (n, _b) in enumerate(DEVICES)] +
+            [(n + ":codesegsize=0+wrap", i + 24) for i, (n, _b) in enumerate(DEVICES)])
     sentinel = SENT
     gran = 2
-    sample_tags = ("branch", "rjmp", "ldd", "imm8")
+    sample_tags = ("branch", "rjmp", "ldd", "imm8", "branch-bytemode", "rjmp-bytemode", "jmp-call-bytemode")
 
     @staticmethod
     def header(cpuname):
         if cpuname.endswith("+wrap"):
             return ["\tcpu %s" % cpuname[:-5], "\twrapmode on"]
-        return ["\tcpu %s" % cpuname]
+        return ["\tcpu %s" % cpuname]     # may carry the CPU argument `:codesegsize=0'
 
     @staticmethod
     def org(a):
@@ -91,10 +97,11 @@ class T:
         def pcs_plain(dev, words=1):
             return rng.choice([0, 2, 0x40, 0x123, 0x1e0, (1 << DEVICES[dev][1]) - 2])
 
-        def add(dev, mn, args, text, tag, pc=None, wrap=False):
+        def add(dev, mn, args, text, tag, pc=None, wrap=False, byte=False):
             if pc is None:
                 pc = pcs_plain(dev)
-            out.append(Case("avr", dev + (8 if wrap else 0), pc, mn, args, "\t%s %s" % (mn.lower() if rng.random() < 0.5 else mn, text), tag))
+            out.append(Case("avr", dev + (8 if wrap else 0) + (16 if byte else 0), pc, mn, args,
+                            "\t%s %s" % (mn.lower() if rng.random() < 0.5 else mn, text), tag))
 
         def dense_dev(mincore, mn):
             """device on which the dense enumeration of a mnemonic runs: one that has it"""
@@ -317,6 +324,75 @@ class T:
                     for d in range(-2055, 2056):
                         t = (pc + 1 + d) % size if (wrap or size <= 4096) else pc + 1 + d
                         add(dev, mn, [t], str(t), "rjmp-all-distances", pc=pc, wrap=wrap)
+        # ---- byte-addressed code space (`cpu <device>:codesegsize=0`): program counter and code addresses are written in bytes, the
+        # instruction words stay the same.  Every relative and absolute branch form at non-zero byte addresses all over the program
+        # memory, targets (even = word boundary, and odd) around both displacement limits and both ends of the memory, with and without
+        # WRAPMODE; plus a sample of all other statements (they must not depend on the address unit).
+        def bbranch(dev, wrap, pcw, tw, lim, tag, odd=False):
+            t = 2 * tw + (1 if odd else 0)
+            if lim == 64:
+                if rng.random() < 0.25 and brb:
+                    mn = rng.choice(brb)
+                    s = rng.randrange(8)
+                    add(dev, mn, [s, t], "%s,%s" % (N(rng, s), N(rng, t)), tag, pc=2 * pcw, wrap=wrap, byte=True)
+                else:
+                    mn = rng.choice(rel7)
+                    add(dev, mn, [t], N(rng, t), tag, pc=2 * pcw, wrap=wrap, byte=True)
+            elif rel12:
+                mn = rng.choice(rel12)
+                add(dev, mn, [t], N(rng, t), tag, pc=2 * pcw, wrap=wrap, byte=True)
+
+        absm = [mn for (mn, form, _c) in forms if form == "abs"]
+        for dev in range(len(DEVICES)):
+            size = 1 << DEVICES[dev][1]
+            pcs = {0, 1, 2, 3, 31, 62, 63, 64, 65, 100, 129, size // 2 - 1, size // 2, size - 66, size - 65, size - 64, size - 63, size - 2, size - 1,
+                   2046, 2047, 2048, 2049, size - 2050, size - 2049, size - 2048, size - 2047,
+                   rng.randrange(1, size), rng.randrange(1, size), rng.randrange(1, min(size, 300))}
+            pcs = sorted(p for p in pcs if 0 <= p < size and abs(2 * p - SENT) > 6)
+            for wrap in (False, True):
+                for lim in (64, 2048):
+                    for pcw in (pcs if not quick else rng.sample(pcs, min(len(pcs), 16))):
+                        ds = set()
+                        for e in (-lim, lim - 1):
+                            ds |= {e - 2, e - 1, e, e + 1, e + 2}
+                        ds |= {-1, 0, 1, rng.randrange(-lim, lim), rng.randrange(-lim, lim)}
+                        ts = set()
+                        for d in ds:
+                            ts |= {pcw + 1 + d, (pcw + 1 + d) % size}
+                        ts |= {0, size - 1, size, -1, rng.randrange(size)}
+                        for tw in (sorted(ts) if not quick else rng.sample(sorted(ts), min(len(ts), 9))):
+                            bbranch(dev, wrap, pcw, tw, lim, "branch-bytemode" if lim == 64 else "rjmp-bytemode", odd=rng.random() < 0.08)
+                # every conditional-branch mnemonic at both limits, somewhere in the middle of the memory
+                mid = [p for p in pcs if 70 <= p < size - 70] or [size // 2]
+                for mn in rel7 + brb:
+                    pcw = rng.choice(mid)
+                    for d in (-65, -64, 63, 64):
+                        t = 2 * (pcw + 1 + d)
+                        if mn in brb:
+                            s_ = rng.randrange(8)
+                            add(dev, mn, [s_, t], "%s,%s" % (N(rng, s_), N(rng, t)), "branch-bytemode", pc=2 * pcw, wrap=wrap, byte=True)
+                        else:
+                            add(dev, mn, [t], N(rng, t), "branch-bytemode", pc=2 * pcw, wrap=wrap, byte=True)
+                # every distance of the conditional branches (even and odd byte targets) at a random position
+                if not quick or not wrap:
+                    pcw = rng.choice(mid)
+                    mn = rng.choice(rel7)
+                    for d2 in range(-140, 141):
+                        t = 2 * (pcw + 1) + d2
+                        add(dev, mn, [t], N(rng, t), "branch-bytemode-all-distances", pc=2 * pcw, wrap=wrap, byte=True)
+                # absolute jumps: byte targets over the whole program memory and just outside
+                for mn in absm:
+                    tws = sorted(set(limits(0, size - 1, rng, 5, wide=False) + [32767, 32768, 65535, 65536, 0x12345 % size]))
+                    for tw in tws:
+                        for odd in ((0, 1) if tw in (0, size - 1, size) else (0,)):
+                            t = 2 * tw + odd
+                            add(dev, mn, [t], N(rng, t), "jmp-call-bytemode", pc=2 * rng.choice([1, 3, 0x40, 0x123, 0x1e0]), wrap=wrap, byte=True)
+                    add(dev, mn, [-2], "-2", "jmp-call-bytemode", pc=2, wrap=wrap, byte=True)
+        # all other statements: a sample of the word-mode cases, the program counter doubled
+        plain = [c for c in out if c.cpu < 16 and not any(x in c.tag for x in ("branch", "rjmp", "jmp-call"))]
+        for c in rng.sample(plain, min(len(plain), 1200 if quick else 6000)):
+            if abs(2 * c.pc - SENT) > 6:
+                out.append(Case("avr", c.cpu + 16, 2 * c.pc, c.mn, c.args, c.text, c.tag + "-bytemode"))
         return out
 
     @staticmethod
@@ -326,4 +402,6 @@ class T:
             return SIG_SIZE
         if c == "pbit-trunc":
             return SIG_PBIT
+        if c == "wrap-byte":
+            return SIG_WRAPB
         return None
